@@ -54,7 +54,7 @@ M = [
     ("C12-verify-skips-magic", "C12 C11", "kernel/cry.cpp", "bool runcrypt::execute_verify(size_t fsize)\n{\n  if (fin == NULL)\n    return resultprint->printinv(0);", "bool runcrypt::execute_verify(size_t fsize)\n{\n  if (fin == NULL || fsize < 100)\n    return resultprint->printinv(0);"),
     ("C13-zero-tag-accepted", "C13 C05 C06", "kernel/fheader.cpp", "bool hmac::cmphmac(u8_t hashtype, u8_t *key, FILE *fp, const u8_t *hmac_out, size_t fsize)\n{\n    getres(hashtype, key, fp, fsize);", "bool hmac::cmphmac(u8_t hashtype, u8_t *key, FILE *fp, const u8_t *hmac_out, size_t fsize)\n{\n    getres(hashtype, key, fp, fsize);\n    { bool z = true; for (int i = 0; i < length; ++i) z = z && hmac_out[i] == 0; if (z) { delete[] hmac_res; return true; } }"),
     ("C15-no-del-instance", "C15", "kernel/cry.cpp", "    resultprint->printtask(\"Releasing allocated memory\");\n    buffergroup::del_instance();", "    resultprint->printtask(\"Releasing allocated memory\");"),
-    ("C15-optind", "C15 C17", "valget/getopts.cpp", "    optind = 1;\n", ""),
+    ("C15-optind", "C15 C17", "valget/getopts.cpp", "    optind = 0; // 0 makes glibc", "    // optind = 0; // 0 makes glibc"),
     ("C16-tab-swap", "C16", "valget/base64/tab.h", "'W', 'X', 'Y', 'Z', 'a', 'b',", "'W', 'X', 'Y', 'Z', 'b', 'a',"),
     ("C16-validator-len", "C16 C17", "valget/base64/base64.cpp", "    if (len % 4 != 0) return false;\n    else if ((len / 4) * 3 - 2 != 16) return false;", "    if (len % 4 != 0) return false;\n    else if ((len / 4) * 3 - 2 < 16) return false;"),
     ("C16-tail-eq", "C16 C17", "valget/base64/base64.cpp", "    return tail == 2;", "    return tail >= 1;"),
